@@ -1,5 +1,425 @@
-use crate::mc::Eng;
+//! C15 — settable bookkeeping, following and history adapters map values and time exactly.
+use crate::env::*;
+use crate::mc::*;
 use crate::Ctx;
-pub fn run(_ctx: &Ctx) -> Vec<Eng> {
-    vec![]
+use rrtk::*;
+use std::cell::RefCell;
+use std::rc::Rc;
+
+// ---------------------------------------------------------------- settable + following
+#[derive(Clone, Copy, Debug, PartialEq)]
+enum Op {
+    Set(i32),
+    ToggleAccept,
+    Follow(u8),
+    Stop,
+    Update,
+    G1(u8), // 0 = P(7), 1 = N, 2 = E1
+}
+const OPS: [Op; 10] = [Op::Set(1), Op::Set(2), Op::ToggleAccept, Op::Follow(1), Op::Follow(2), Op::Stop, Op::Update, Op::G1(0), Op::G1(1), Op::G1(2)];
+fn g1_out(k: u8) -> Output<i32, E> {
+    match k {
+        0 => Ok(Some(Datum::new(Time(5), 7))),
+        1 => Ok(None),
+        _ => Err(E1),
+    }
+}
+fn ops_show(seq: &[usize]) -> String {
+    seq.iter().map(|&i| format!("{:?}", OPS[i])).collect::<Vec<_>>().join(",")
+}
+
+fn do_set(constant: bool, accept: bool, v: i32, last: &mut Option<i32>, log: &mut Vec<i32>, value: &mut i32) -> u32 {
+    if constant {
+        *value = v;
+        *last = Some(v);
+        0
+    } else if accept {
+        log.push(v);
+        *last = Some(v);
+        0
+    } else {
+        2 + 3 // rejected with E3; last request unchanged
+    }
+}
+
+fn settable_history(seq: &[usize], constant: bool, e: &mut Eng) -> u64 {
+    let n = seq.len();
+    // model
+    let mut last: Option<i32> = None;
+    let mut accept = true;
+    let mut following: u8 = 0;
+    let mut g1: u8 = 0;
+    let mut log: Vec<i32> = Vec::new();
+    let mut value: i32 = 100; // ConstantGetter's current value
+    let mut nontrivial = false;
+    let name = if constant { "constant-getter" } else { "recording" };
+    let r = guard(|| {
+        let g1r = rc(Scr::<i32>::new(g1_out(0)));
+        let g2r = rc(Scr::<i32>::new(Ok(Some(Datum::new(Time(6), 9)))));
+        let clock = rc(ScrTime::new(Ok(Time(40))));
+        let mut rec = RecSet::<i32>::new();
+        let mut cg = ConstantGetter::new(rf(&clock), 100i32);
+        let mut trace: Vec<(u32, Option<i32>, Vec<i32>, Obs)> = Vec::new();
+        for &i in seq {
+            let op = OPS[i];
+            let mut res = 0u32;
+            match op {
+                Op::Set(v) => {
+                    res = obs_unit(&if constant { cg.set(v) } else { rec.set(v) });
+                }
+                Op::ToggleAccept => rec.accept = !rec.accept,
+                Op::Follow(w) => {
+                    let g = if w == 1 { dyn_getter(&g1r) } else { dyn_getter(&g2r) };
+                    if constant {
+                        cg.follow(g)
+                    } else {
+                        rec.follow(g)
+                    }
+                }
+                Op::Stop => {
+                    if constant {
+                        cg.stop_following()
+                    } else {
+                        rec.stop_following()
+                    }
+                }
+                Op::Update => res = obs_unit(&if constant { cg.update() } else { rec.update() }),
+                Op::G1(k) => g1r.borrow_mut().next = g1_out(k),
+            }
+            let lr = if constant { cg.get_last_request() } else { rec.get_last_request() };
+            let got = if constant { obs(&cg.get().map(|o| o.map(|d| Datum::new(d.time, d.value as f32)))) } else { Obs::NONE };
+            trace.push((res, lr, rec.log.clone(), got));
+        }
+        trace
+    });
+    let trace = match r {
+        Ok(t) => t,
+        Err(m) => {
+            e.violation(&format!("settable:{}:panic", name), n, || format!("ops [{}] panicked: {}", ops_show(seq), m));
+            return n as u64;
+        }
+    };
+    e.outcome(h64(&(constant, &trace)));
+    for (k, &i) in seq.iter().enumerate() {
+        e.checks += 1;
+        let mut exp_res = 0u32;
+        match OPS[i] {
+            Op::Set(v) => exp_res = do_set(constant, accept, v, &mut last, &mut log, &mut value),
+            Op::ToggleAccept => {
+                if !constant {
+                    accept = !accept
+                }
+            }
+            Op::Follow(w) => following = w,
+            Op::Stop => following = 0,
+            Op::G1(x) => g1 = x,
+            Op::Update => {
+                let src: Option<Output<i32, E>> = match following {
+                    0 => None,
+                    1 => Some(g1_out(g1)),
+                    _ => Some(Ok(Some(Datum::new(Time(6), 9)))),
+                };
+                match src {
+                    None => {}
+                    Some(Err(_)) => exp_res = 2 + 1,
+                    Some(Ok(None)) => {}
+                    Some(Ok(Some(d))) => {
+                        nontrivial = true;
+                        exp_res = do_set(constant, accept, d.value, &mut last, &mut log, &mut value);
+                    }
+                }
+            }
+        }
+        let (res, lr, rlog, got) = &trace[k];
+        let exp_get = Obs { tag: 1, time: 40, bits: [(value as f32).to_bits(), 0, 0, 0] };
+        let ok = *res == exp_res && *lr == last && (constant || *rlog == log) && (!constant || *got == exp_get);
+        if !ok {
+            let cls = if *res != exp_res {
+                "result"
+            } else if *lr != last {
+                "last-request"
+            } else if !constant {
+                "forwarded-values"
+            } else {
+                "value"
+            };
+            e.violation(&format!("settable:{}:{}", name, cls), k + 1, || {
+                format!(
+                    "ops [{}]: after op {} result code {} last_request {:?} inner log {:?} get {} but the bookkeeping model says result {} last_request {:?} log {:?} value {}",
+                    ops_show(&seq[..=k]), k, res, lr, rlog, got.show(), exp_res, last, log, value
+                )
+            });
+            break;
+        }
+    }
+    if nontrivial {
+        e.nontrivial += 1;
+    }
+    n as u64
+}
+
+// ---------------------------------------------------------------- history adapter
+/// History that answers only for non-negative times, returns the queried time as the value
+/// and stamps its datum with a *different* time (rounded down to a multiple of 4), as a
+/// sample-and-hold table would.
+struct Echo {
+    updates: u64,
+}
+impl History<i64, E> for Echo {
+    fn get(&self, time: Time) -> Option<Datum<i64>> {
+        if time.0 < 0 {
+            None
+        } else {
+            Some(Datum::new(Time(time.0 - time.0.rem_euclid(4)), time.0))
+        }
+    }
+}
+impl Updatable<E> for Echo {
+    fn update(&mut self) -> NothingOrError<E> {
+        self.updates += 1;
+        Ok(())
+    }
+}
+#[derive(Clone, Copy, Debug, PartialEq)]
+enum HOp {
+    Clock(i64),
+    SetDelta(i64),
+    SetTime(i64),
+    ToggleFail,
+    Get,
+    Update,
+}
+const HOPS: [HOp; 11] = [
+    HOp::Clock(-3),
+    HOp::Clock(0),
+    HOp::Clock(5),
+    HOp::Clock(1_000_000_000_000),
+    HOp::SetDelta(-7),
+    HOp::SetDelta(100),
+    HOp::SetTime(0),
+    HOp::SetTime(50),
+    HOp::ToggleFail,
+    HOp::Get,
+    HOp::Update,
+];
+fn hops_show(seq: &[usize]) -> String {
+    seq.iter().map(|&i| format!("{:?}", HOPS[i])).collect::<Vec<_>>().join(",")
+}
+const CTORS: [&str; 5] = ["new_no_delta", "new_start_at_zero", "new_custom_start(30)", "new_custom_delta(-12)", "new_start_at_zero(failing clock)"];
+
+fn history_case(ctor: usize, c0: i64, seq: &[usize], e: &mut Eng) -> u64 {
+    let n = seq.len();
+    let desc = || format!("{} at clock {} then [{}]", CTORS[ctor], c0, hops_show(seq));
+    let r = guard(|| {
+        let mut hist = Echo { updates: 0 };
+        let clock = rc(ScrTime::new(Ok(Time(c0))));
+        if ctor == 4 {
+            clock.borrow_mut().next = Err(E2);
+        }
+        let built: Result<GetterFromHistory<i64, ScrTime, E>, Error<E>> = match ctor {
+            0 => Ok(GetterFromHistory::new_no_delta(&mut hist, rf(&clock))),
+            1 | 4 => GetterFromHistory::new_start_at_zero(&mut hist, rf(&clock)),
+            2 => GetterFromHistory::new_custom_start(&mut hist, rf(&clock), Time(30)),
+            _ => Ok(GetterFromHistory::new_custom_delta(&mut hist, rf(&clock), Time(-12))),
+        };
+        let mut g = match built {
+            Ok(g) => g,
+            Err(er) => return (Some(er), Vec::new()),
+        };
+        let mut now = c0;
+        let mut failing = false;
+        let mut trace: Vec<(u32, Obs, u64)> = Vec::new();
+        for &i in seq {
+            let mut res = 0u32;
+            let mut got = Obs::NONE;
+            match HOPS[i] {
+                HOp::Clock(d) => {
+                    now += d;
+                    if !failing {
+                        clock.borrow_mut().next = Ok(Time(now));
+                    }
+                }
+                HOp::SetDelta(d) => g.set_delta(Time(d)),
+                HOp::SetTime(t) => res = obs_unit(&g.set_time(Time(t))),
+                HOp::ToggleFail => {
+                    failing = !failing;
+                    clock.borrow_mut().next = if failing { Err(E2) } else { Ok(Time(now)) };
+                }
+                HOp::Get => got = obs(&g.get().map(|o| o.map(|d| Datum::new(d.time, d.value as f32)))),
+                HOp::Update => res = obs_unit(&g.update()),
+            }
+            trace.push((res, got, clock.borrow().updates));
+        }
+        (None, trace)
+    });
+    let (ctor_err, trace) = match r {
+        Ok(x) => x,
+        Err(m) => {
+            e.violation("history-adapter:panic", n, || format!("{} panicked: {}", desc(), m));
+            return n as u64;
+        }
+    };
+    e.outcome(h64(&(ctor, c0, &trace)));
+    e.checks += 1;
+    if ctor == 4 {
+        if ctor_err != Some(E2) {
+            e.violation("history-adapter:constructor-error", 0, || format!("{}: constructor returned {:?} instead of the time getter's error", desc(), ctor_err));
+        }
+        return 0;
+    }
+    if ctor_err.is_some() {
+        e.violation("history-adapter:constructor-error", 0, || format!("{}: constructor failed with {:?}", desc(), ctor_err));
+        return 0;
+    }
+    // model
+    let mut offset: i64 = match ctor {
+        0 => 0,
+        1 => -c0,
+        2 => 30 - c0,
+        _ => -12,
+    };
+    let mut now = c0;
+    let mut failing = false;
+    let mut clock_updates = 0u64;
+    let mut nontrivial = false;
+    for (k, &i) in seq.iter().enumerate() {
+        e.checks += 1;
+        let mut exp_res = 0u32;
+        let mut exp_get = Obs::NONE;
+        match HOPS[i] {
+            HOp::Clock(d) => now += d,
+            HOp::SetDelta(d) => offset = d,
+            HOp::SetTime(t) => {
+                if failing {
+                    exp_res = 2 + 2;
+                } else {
+                    offset = t - now;
+                    nontrivial = true;
+                }
+            }
+            HOp::ToggleFail => failing = !failing,
+            HOp::Get => {
+                exp_get = if failing {
+                    Obs::err(&E2)
+                } else {
+                    let q = now + offset;
+                    if q < 0 {
+                        Obs::NONE
+                    } else {
+                        Obs { tag: 1, time: now, bits: [(q as f32).to_bits(), 0, 0, 0] }
+                    }
+                };
+            }
+            HOp::Update => clock_updates += 1,
+        }
+        let (res, got, cu) = trace[k];
+        if res != exp_res || got != exp_get || cu != clock_updates {
+            let cls = if res != exp_res {
+                "result"
+            } else if cu != clock_updates {
+                "update-forwarding"
+            } else if got.tag != exp_get.tag {
+                "presence"
+            } else if got.time != exp_get.time {
+                "restamp"
+            } else {
+                "queried-time"
+            };
+            e.violation(&format!("history-adapter:{}", cls), k + 1, || {
+                format!(
+                    "{} at clock {} then [{}]: op {} gave result {} get {} (clock updates {}) but now={} offset={} so the model says result {} get {} (clock updates {})",
+                    CTORS[ctor], c0, hops_show(&seq[..=k]), k, res, got.show(), cu, now, offset, exp_res, exp_get.show(), clock_updates
+                )
+            });
+            break;
+        }
+    }
+    if nontrivial {
+        e.nontrivial += 1;
+    }
+    n as u64
+}
+
+fn time_getters(e: &mut Eng) {
+    for t in [i64::MIN, -5, 0, 7, i64::MAX] {
+        for cat in 0..4 {
+            e.executions += 1;
+            e.states += 1;
+            e.transitions += 2;
+            e.checks += 1;
+            e.nontrivial += 1;
+            let inp: Output<f32, E> = match cat {
+                0 => Ok(Some(Datum::new(Time(t), 1.5))),
+                1 => Ok(None),
+                2 => Err(E1),
+                _ => Err(Error::FromNone),
+            };
+            let exp: TimeOutput<E> = match cat {
+                0 => Ok(Time(t)),
+                1 => Err(Error::FromNone),
+                2 => Err(E1),
+                _ => Err(Error::FromNone),
+            };
+            let g = rc(Scr::<f32>::new(inp.clone()));
+            let r = guard(|| {
+                let mut tg = TimeGetterFromGetter::new(rf(&g));
+                let a = tg.get();
+                let u = tg.update();
+                let b = tg.get();
+                (a, u, b)
+            });
+            e.outcome(h64(&format!("{:?}", r)));
+            match r {
+                Ok((a, u, b)) if a == exp && b == exp && u == Ok(()) => {}
+                other => e.violation("time-getter-from-getter", 1, || format!("input {:?}: got {:?}, expected {:?}", inp, other, exp)),
+            }
+            // Time itself is a time getter returning itself
+            let tt = Time(t);
+            if <Time as TimeGetter<E>>::get(&tt) != Ok(Time(t)) {
+                e.violation("time-as-time-getter", 1, || format!("Time({}) as a time getter", t));
+            }
+        }
+    }
+    e.sample(|| "TimeGetterFromGetter over input Ok(None) -> Err(FromNone)".to_string());
+}
+
+pub fn run(ctx: &Ctx) -> Vec<Eng> {
+    let budget = Budget::secs(if ctx.thorough { 1500 } else { 100 });
+    let depth = if ctx.thorough { 8 } else { 7 };
+    let mut e1 = Eng::new(
+        "c15-settable-following",
+        "all operation sequences of exactly `depth` ops over {set(1), set(2), toggle inner-rejects, follow(g1), follow(g2), stop_following, update, g1:=P(7)/N/E1} on a recording settable and on ConstantGetter (as a settable); reference = bookkeeping struct (last successful request, forwarded values, update result, constant getter value at the clock time); non-trivial = an update forwarded a followed value",
+        &format!("depth {} => 10^{} sequences x 2 settables", depth, depth),
+    );
+    for constant in [false, true] {
+        par_seqs(&mut e1, OPS.len(), depth, budget, |seq, e| {
+            let a = settable_history(seq, constant, e);
+            e.sample(|| format!("constant={} [{}]", constant, ops_show(seq)));
+            a
+        });
+    }
+    let hdepth = if ctx.thorough { 7 } else { 6 };
+    let mut e2 = Eng::new(
+        "c15-history-adapter",
+        "GetterFromHistory: 4 constructor forms (+ start-at-zero with a failing clock) x 2 construction clock values x all sequences of exactly `depth` ops over {clock += -3/0/5/1e12, set_delta(-7/100), set_time(0/50), toggle failing time getter, get, update} over a history that echoes the queried time as value, is absent for negative times and stamps its data with a different time; reference: get = Datum(now, history(now + offset)), offset per constructor / set_delta / set_time; non-trivial = a successful set_time",
+        &format!("depth {} => 11^{} sequences x 4 constructors x 2 clocks", hdepth, hdepth),
+    );
+    for ctor in 0..4 {
+        for c0 in [0i64, 17] {
+            par_seqs(&mut e2, HOPS.len(), hdepth, budget, |seq, e| {
+                let a = history_case(ctor, c0, seq, e);
+                e.sample(|| format!("{} at clock {} [{}]", CTORS[ctor], c0, hops_show(seq)));
+                a
+            });
+        }
+    }
+    history_case(4, 3, &[], &mut e2);
+    e2.executions += 1;
+    let mut e3 = Eng::new(
+        "c15-time-getters",
+        "TimeGetterFromGetter over {P(t), N, E1, FromNone} x t in {MIN,-5,0,7,MAX}; Time as a time getter",
+        "20 cases",
+    );
+    time_getters(&mut e3);
+    vec![e1, e2, e3]
 }
